@@ -149,6 +149,18 @@ def main(argv):
     results.sort(key=lambda r: r['unit'])
     violations = []
     known_hit = []
+    # findings that no obligation can express (something is ABSENT from the code) are re-confirmed by a syntactic probe
+    if a.prop:
+        import glob as _glob
+        for k in known.get('findings', []):
+            sp = k.get('static_probe')
+            if k.get('property') != a.prop or not sp:
+                continue
+            txt = ''.join(open(f, errors='replace').read() for f in sorted(_glob.glob(os.path.join(vrun.REPO, sp['files']))))
+            if not re.search(sp['absent_regex'], txt):
+                known_hit.append((k, dict(unit='static_probe'), dict(property='static_probe', description='')))
+            else:
+                print('NOTE: known finding %s no longer reproduces (syntactic probe): remove it from known_findings.json' % k['id'])
     probe_results = [r for r in results if '#probe:' in r['unit']]
     results = [r for r in results if '#probe:' not in r['unit']]
     for r in probe_results:
